@@ -339,6 +339,12 @@ pub struct Kernel {
     pub guard_page: usize,
     /// Harness operations that were dropped (abandoned or finished).
     pub dropped_ops: Vec<u32>,
+    /// Real descriptors (inotify, signalfd) owned by AsyncFds: closed for
+    /// real when a10 closes them through the ring.
+    pub foreign_fds: Vec<i32>,
+    /// Memory ranges the application still holds references into: a request
+    /// that lets the kernel write there is reported (class, detail).
+    pub held_ranges: Vec<(usize, usize, String)>,
 }
 
 static KERNEL: Mutex<Option<Kernel>> = Mutex::new(None);
@@ -371,6 +377,9 @@ pub fn reset(cfg: KCfg) {
             Err(e) => e.into_inner(),
         };
         if let Some(old) = g.take() {
+            for fd in &old.foreign_fds {
+                unsafe { libc::close(*fd) };
+            }
             for ring in &old.rings {
                 if !ring.fd_closed && unsafe { libc::fcntl(ring.fd, libc::F_GETFD) } != -1 {
                     // Leftover from a run that leaked its ring, close it.
@@ -398,6 +407,8 @@ pub fn reset(cfg: KCfg) {
             stream_pos: BTreeMap::new(),
             guard_page: crate::segv::poison_page(),
             dropped_ops: Vec::new(),
+            foreign_fds: Vec::new(),
+            held_ranges: Vec::new(),
         });
     });
 }
@@ -603,6 +614,12 @@ impl Kernel {
                 format!("standard stream {fd} closed via {how}"),
             );
             self.std_closes.push(fd);
+            return 0;
+        }
+        if let Some(pos) = self.foreign_fds.iter().position(|f| *f == fd) {
+            self.foreign_fds.swap_remove(pos);
+            unsafe { libc::close(fd) };
+            ev!("k close real descriptor via {how}");
             return 0;
         }
         match self.fds.get_mut(&fd) {
@@ -1128,6 +1145,7 @@ impl Kernel {
                 None => (NO_OP, During::Other),
             };
             n += 1;
+            crate::sched::progress();
             self.submit(r, idx, sqe, by_op, during);
         }
         if n > 0 {
@@ -1154,6 +1172,7 @@ impl Kernel {
     }
 
     fn post_now(&mut self, r: usize, cqe: Cqe) {
+        crate::sched::progress();
         self.observe(r);
         let ring = &mut self.rings[r];
         if ring.cq_mem.dead {
